@@ -78,6 +78,13 @@ def composite_reference_documents():
                                                      (A + "k4", ("lit", "bonjour", P + "InternationalizedString", "fr")),
                                                      (A + "k4", ("str", "bonjour")), (A + "k5", ("lit", "v", B + "dt", None))]),
                                          ent("r2", [(A + "k", ("bool", True)), (A + "k2", ("int", 1))])), ())))
+    # formal times at midnight (xsd:dateTime has a second spelling for them: the previous day, 24:00:00)
+    docs.append(("composite|midnight", ((
+        (P + "Activity", A + "a", ((P + "startTime", ("dt", "2012-03-02T00:00:00", None)),
+                                   (P + "endTime", ("dt", "2012-03-03T00:00:00+00:00", 0.0)))),
+        (P + "Generation", None, ((P + "entity", ("qn", A + "e")), (P + "activity", ("qn", A + "a")),
+                                  (P + "time", ("dt", "2012-01-01T00:00:00+05:30", 19800.0)))),
+        ent("e", [(A + "k", ("str", "caf\u00e9"))])), ())))
     return docs
 
 
